@@ -201,13 +201,13 @@ def compile_phase(ck):
             env, cmds, exps = {}, ["reset", "compiler 0"], []
             for (v, t, val) in seq:
                 cmds.append("defc 0 %s %s %s" % (v, t, fmt(t, val)))
-                if v in env: exps.append(DUP)
-                elif val is None: exps.append(INVALID_ARG)
-                else: env[v] = val; exps.append(0)
+                if val is None: exps.append((INVALID_ARG, DUP) if v in env else (INVALID_ARG,))      # which of the two applicable errors wins is not specified
+                elif v in env: exps.append((DUP,))
+                else: env[v] = val; exps.append((0,))
             # remaining variables must be defined for the probe rules to compile
             for v, (t, vals) in VARS.items():
                 if v not in env:
-                    cmds.append("defc 0 %s %s %s" % (v, t, fmt(t, vals[0]))); env[v] = vals[0]; exps.append(0)
+                    cmds.append("defc 0 %s %s %s" % (v, t, fmt(t, vals[0]))); env[v] = vals[0]; exps.append((0,))
             cmds += ["add 0 - " + yv.hx(RULES), "getrules 0 0", "scanner 0 0", "scan target=s0 via=mem ml=0 flags=8 data=616263", "scan target=r0 via=mem ml=0 flags=8 data=616263"]
             try:
                 rep = w.batch(cmds)
@@ -218,7 +218,7 @@ def compile_phase(ck):
             rcs = [r["rc"] for r in rep[2:2 + len(exps)]]
             n += 1
             ck.cov["evaluations"] += 1
-            if rcs != exps:
+            if len(rcs) != len(exps) or any(r not in e for r, e in zip(rcs, exps)):
                 ck.violation("C20:rc:defc", dict(seq=seq, expected=exps, observed=rcs, commands=cmds))
                 continue
             got = observed_env(rep[-1])
